@@ -300,4 +300,70 @@ theorem c14_unit_property_rebuild_order_independent (cfg : RichCfg) (secs : List
   rw [rebuildUprp_eq_core cfg secs table o1 hsec hany, rebuildUprp_eq_core cfg secs table o2 hsec hany]
   exact uprpCore_perm cfg table _ _ (hperm.filter _)
 
+/-! ### switches: the numbers handed to new switches -/
+
+/-- the part of `rebuildSwnm` after the switches in use have been collected, de-duplicated and ordered -/
+def swnmCore (cfg : RichCfg) (swnm usedD : List RSwitch) : R (List RSwitch × List (RSwitch × Nat)) :=
+  let named := swnm.filter hasCustomName
+  let usedNew := usedD.filter fun u => !(named.any fun n => RSwitch.same n u)
+  let allUsed := named ++ usedNew
+  let given : List (Nat × Bytes) := usedNew.filterMap fun s =>
+    if hasCustomName s then s.idx.map fun i => (i, s.name.value) else none
+  if given.any (fun p => given.any fun q => p.1 == q.1 && p.2 != q.2) then .error .value else
+  let carried := allUsed.filterMap (·.idx)
+  let free := (List.range cfg.switchSlots).filter fun i => !carried.contains i
+  rebuildSwnm.go allUsed free ((List.range cfg.switchSlots).map fun i => ⟨.null, some i, 0⟩) []
+
+theorem rebuildSwnm_eq_core (cfg : RichCfg) (secs : List RSection) (o : Option (List Nat)) :
+    rebuildSwnm cfg secs o =
+      swnmCore cfg (match secs.filter (isSectionNamed nSWNM) with
+          | [.swnm ss] => ss
+          | _ => (List.range cfg.switchSlots).map fun i => ⟨.null, some i, 0⟩)
+        (allocOrder o (dedupBy RSwitch.same ((secs.filter (fun s => !isSectionNamed nSWNM s)).flatMap (sectionSwitches cfg)))) := rfl
+
+/-- **the numbers given to new switches do not depend on the iteration order**: under any two orders of the set of
+switches in use (two permutations), when both saves succeed they hand out exactly the same new numbers, in the same
+sequence (the first `k` free numbers, `k` = how many switches carry none); only WHICH new switch received which of
+them may differ -/
+theorem c14_new_switch_numbers_order_free (cfg : RichCfg) (swnm u1 u2 : List RSwitch) (hu : u1.Perm u2)
+    {t1 t2 : List RSwitch} {i1 i2 : List (RSwitch × Nat)}
+    (h1 : swnmCore cfg swnm u1 = .ok (t1, i1)) (h2 : swnmCore cfg swnm u2 = .ok (t2, i2)) :
+    Props.C09.newSwitchNumbers i1 = Props.C09.newSwitchNumbers i2 := by
+  unfold swnmCore at h1 h2
+  simp only at h1 h2
+  split at h1
+  · simp at h1
+  · split at h2
+    · simp at h2
+    · have e1 := Props.C09.rebuildSwnm_go_new_numbers _ _ _ _ _ _ h1
+      have e2 := Props.C09.rebuildSwnm_go_new_numbers _ _ _ _ _ _ h2
+      rw [e1, e2]
+      have hN : ((swnm.filter hasCustomName) ++ u1.filter fun u => !((swnm.filter hasCustomName).any fun n => RSwitch.same n u)).Perm
+                ((swnm.filter hasCustomName) ++ u2.filter fun u => !((swnm.filter hasCustomName).any fun n => RSwitch.same n u)) :=
+        (List.Perm.refl _).append (hu.filter _)
+      have hk : Props.C09.countUnnumbered ((swnm.filter hasCustomName) ++ u1.filter fun u => !((swnm.filter hasCustomName).any fun n => RSwitch.same n u)) =
+                Props.C09.countUnnumbered ((swnm.filter hasCustomName) ++ u2.filter fun u => !((swnm.filter hasCustomName).any fun n => RSwitch.same n u)) := by
+        unfold Props.C09.countUnnumbered
+        exact (hN.filter _).length_eq
+      have hc : ∀ i, (((swnm.filter hasCustomName) ++ u1.filter fun u => !((swnm.filter hasCustomName).any fun n => RSwitch.same n u)).filterMap (·.idx)).contains i =
+                     (((swnm.filter hasCustomName) ++ u2.filter fun u => !((swnm.filter hasCustomName).any fun n => RSwitch.same n u)).filterMap (·.idx)).contains i := by
+        intro i
+        have hp := hN.filterMap (·.idx)
+        have : (i ∈ _) ↔ (i ∈ _) := hp.mem_iff
+        simp only [List.contains_eq_mem]
+        exact decide_eq_decide.mpr this
+      rw [hk]
+      congr 2
+      exact List.filter_congr (fun i _ => by rw [hc i])
+
+/-- the same, stated for the whole switch rebuild under two iteration orders of the set of switches in use -/
+theorem c14_switch_rebuild_new_numbers_order_free (cfg : RichCfg) (secs : List RSection) (o1 o2 : Option (List Nat))
+    (hperm : (allocOrder o1 (dedupBy RSwitch.same ((secs.filter (fun s => !isSectionNamed nSWNM s)).flatMap (sectionSwitches cfg)))).Perm
+             (allocOrder o2 (dedupBy RSwitch.same ((secs.filter (fun s => !isSectionNamed nSWNM s)).flatMap (sectionSwitches cfg)))))
+    {t1 t2 : List RSwitch} {i1 i2 : List (RSwitch × Nat)}
+    (h1 : rebuildSwnm cfg secs o1 = .ok (t1, i1)) (h2 : rebuildSwnm cfg secs o2 = .ok (t2, i2)) :
+    Props.C09.newSwitchNumbers i1 = Props.C09.newSwitchNumbers i2 := by
+  rw [rebuildSwnm_eq_core] at h1 h2
+  exact c14_new_switch_numbers_order_free cfg _ _ _ hperm h1 h2
+
 end Richchk.Props.C14
